@@ -220,6 +220,16 @@ def gen_cases(ctx):
                 for L in (dl - 1, dl, dl + 1, dl + 2, 2 * dl):
                     for v in (0, 1, L - 1 if L > 0 else 0, 255):
                         yield ("short-const", bytes([v & 0xff]) * max(L, 0), key, hname, seq, ct, ver, bs)
+                # padding length byte pointing at or before the start of the body (pad_start would be
+                # negative without the clamp): MAC of the empty fragment, arbitrary junk, length byte
+                for junk_len in (0, 1, 2, 7, 20, 60):
+                    total = dl + junk_len + 1
+                    if total > 255:
+                        continue
+                    for lb in sorted(set([total - 2, total - 1, total, total + 1, 200, 254, 255])):
+                        if 0 <= lb <= 255:
+                            yield ("beyond-start", tag0 + rb(junk_len) + bytes([lb]), key, hname, seq, ct, ver, bs)
+                            yield ("beyond-start", tag0 + bytes([lb]) * junk_len + bytes([lb]), key, hname, seq, ct, ver, bs)
                 # window edges: bodies around 256 / 256+dlen with maximal padding
                 for L in (255, 256, 257, 256 + dl - 1, 256 + dl, 256 + dl + 1, 256 + dl + 64):
                     for p in (254, 255):
